@@ -931,7 +931,7 @@ def shared_conversion_rule(crate, prop, rule="C09.R1"):
     r = Result(rule, "field sites and variant sites must not share one context-free case conversion: serde converts field names assuming snake_case sources and variant names assuming PascalCase sources, and the two functions differ")
     sites = {"field": [], "variant": []}
     for path, role in (("types::named::format_field", "field"), ("types::r#enum::format_variant", "variant")):
-        b = crate.body(path)
+        b = crate.ibody(path)
         if b is None:
             r.fail(prop, "anchor-missing " + path, "not found")
             continue
